@@ -1,5 +1,11 @@
 package protocol
 
+import (
+	"fmt"
+
+	"github.com/blinklabs-io/gouroboros/muxer"
+)
+
 // Overlay shim for package protocol: drives the real (*Protocol).nextState on a given state map.
 
 func VerifNextState(sm StateMap, ctx any, cur State, msg Message) (State, error) {
@@ -24,3 +30,127 @@ func VerifDrainSent(p *Protocol) []Message {
 	}
 	return out
 }
+
+// ---- goroutine bodies of Protocol, one at a time ----
+
+// VerifLoopProtocol builds a Protocol with every channel Start() creates (and the channels
+// muxer registration would supply), a zero muxer (enough for Stop), and no goroutines.
+func VerifLoopProtocol(cfg ProtocolConfig) *Protocol {
+	cfg.Muxer = &muxer.Muxer{}
+	if cfg.ErrorChan == nil {
+		cfg.ErrorChan = make(chan error, 10)
+	}
+	p := New(cfg)
+	p.sendQueueChan = make(chan outboundMessage, 80)
+	p.recvQueueChan = make(chan Message, 50)
+	p.recvReadyChan = make(chan bool, 1)
+	p.sendReadyChan = make(chan bool, 1)
+	p.muxerSendChan = make(chan *muxer.Segment, 100)
+	p.muxerRecvChan = make(chan *muxer.Segment, 100)
+	p.muxerDoneChan = make(chan bool)
+	return p
+}
+
+// VerifStateLoopBody returns the real state loop serving p's transition channel. A harness
+// runs it until it blocks: that performs the real initial setState (state, ready token). Natively
+// the goroutine then keeps serving transitionState; under the executor transitionState is
+// replaced by its contract.
+func VerifStateLoopBody(p *Protocol) func() {
+	stc := make(chan protocolStateTransition)
+	p.stateTransitionChan = stc
+	return func() { p.stateLoop(stc) }
+}
+
+func VerifRecvLoop(p *Protocol)  { p.recvLoop() }
+func VerifSendLoop(p *Protocol)  { p.sendLoop() }
+func VerifReadLoop(p *Protocol)  { p.readLoop() }
+func VerifQueueRecv(p *Protocol, m Message) { p.recvQueueChan <- m }
+func VerifGrantRecv(p *Protocol) { p.recvReadyChan <- true }
+func VerifGrantSend(p *Protocol) { p.sendReadyChan <- true }
+func VerifRecvTokens(p *Protocol) int { return len(p.recvReadyChan) }
+func VerifSendTokens(p *Protocol) int { return len(p.sendReadyChan) }
+func VerifState(p *Protocol) State    { return p.currentState }
+func VerifSetState(p *Protocol, s State) { p.currentState = s }
+func VerifRecvQueued(p *Protocol) int { return len(p.recvQueueChan) }
+func VerifTakeRecv(p *Protocol) Message { return <-p.recvQueueChan }
+func VerifPendingRecv(p *Protocol) (int, int) { return p.pendingRecvBytes, len(p.pendingRecvSizes) }
+func VerifPendingSend(p *Protocol) int { return p.pendingSendBytes }
+func VerifSegmentsOut(p *Protocol) chan *muxer.Segment { return p.muxerSendChan }
+func VerifSegmentsIn(p *Protocol) chan *muxer.Segment  { return p.muxerRecvChan }
+func VerifStopped(p *Protocol) bool {
+	select {
+	case <-p.stopChan:
+		return true
+	default:
+		return false
+	}
+}
+func VerifDrainErrors(p *Protocol) []error {
+	var out []error
+	for len(p.config.ErrorChan) > 0 {
+		out = append(out, <-p.config.ErrorChan)
+	}
+	return out
+}
+func VerifErrorCount(p *Protocol) int { return len(p.config.ErrorChan) }
+
+// VerifRunStateLoop runs the real stateLoop on the given transition requests (queued in
+// order) and returns, per request, the channel its result is delivered on.
+func VerifRunStateLoop(p *Protocol, msgs []Message) (run func(), results []chan error) {
+	ch := make(chan protocolStateTransition, len(msgs)+1)
+	for _, m := range msgs {
+		ec := make(chan error, 1)
+		results = append(results, ec)
+		ch <- protocolStateTransition{m, ec}
+	}
+	return func() { p.stateLoop(ch) }, results
+}
+
+// VerifTransitions records the messages handed to transitionState, with the number of
+// segments already passed to the muxer at that moment.
+var VerifTransitions []Message
+var VerifTransitionSegs []int
+
+// VerifStubTransitionState is the contract of transitionState in sequential mode: one step
+// of the state loop executed inline (the real function hands the request to the state-loop
+// goroutine and waits): next state from the real nextState; on success the state is set and
+// the ready tokens are granted as setState grants them. The StateLoop harness checks the real
+// stateLoop against exactly this behaviour.
+func VerifStubTransitionState(p *Protocol, msg Message) error {
+	VerifTransitions = append(VerifTransitions, msg)
+	VerifTransitionSegs = append(VerifTransitionSegs, len(p.muxerSendChan))
+	next, err := p.nextState(p.getCurrentState(), msg)
+	if err != nil {
+		return fmt.Errorf("%s: error handling protocol state transition: %w", p.config.Name, err)
+	}
+	p.currentState = next
+	VerifGrantFor(p, next)
+	return nil
+}
+
+// VerifGrantFor grants the ready token the agency of state s calls for (reference copy of
+// the rule in setState: our agency -> send token, the peer's agency -> receive token).
+func VerifGrantFor(p *Protocol, s State) {
+	ag := p.config.StateMap[s].Agency
+	mine := (ag == AgencyClient && p.config.Role == ProtocolRoleClient) || (ag == AgencyServer && p.config.Role == ProtocolRoleServer)
+	theirs := (ag == AgencyClient && p.config.Role == ProtocolRoleServer) || (ag == AgencyServer && p.config.Role == ProtocolRoleClient)
+	if mine {
+		select {
+		case p.sendReadyChan <- true:
+		default:
+		}
+	}
+	if theirs {
+		select {
+		case p.recvReadyChan <- true:
+		default:
+		}
+	}
+}
+
+// VerifTransition performs one state transition the way the receive path does (real
+// transitionState natively; its contract under the executor).
+func VerifTransition(p *Protocol, m Message) error { return p.transitionState(m) }
+
+const VerifMaxMessagesPerSegment = maxMessagesPerSegment
+const VerifMaxReadBufferSize = maxReadBufferSize
